@@ -199,12 +199,12 @@ type c06A struct {
 }
 
 func c06Leaf(field string, m c06Mat) *c06A { return &c06A{K: "l", Field: field, Mat: m} }
-func c06KW(field, kw string) *c06A        { return &c06A{K: "l", Field: field, KW: kw} }
-func c06Q(conjs ...*c06A) *c06A           { return &c06A{K: "q", Sub: conjs} }
-func c06C(items ...*c06A) *c06A           { return &c06A{K: "c", Sub: items} }
-func c06G(q *c06A) *c06A                  { return &c06A{K: "g", Sub: []*c06A{q}} }
-func c06Neg(a *c06A) *c06A                { b := *a; b.Neg = true; return &b }
-func c06One(items ...*c06A) *c06A         { return c06Q(c06C(items...)) }
+func c06KW(field, kw string) *c06A         { return &c06A{K: "l", Field: field, KW: kw} }
+func c06Q(conjs ...*c06A) *c06A            { return &c06A{K: "q", Sub: conjs} }
+func c06C(items ...*c06A) *c06A            { return &c06A{K: "c", Sub: items} }
+func c06G(q *c06A) *c06A                   { return &c06A{K: "g", Sub: []*c06A{q}} }
+func c06Neg(a *c06A) *c06A                 { b := *a; b.Neg = true; return &b }
+func c06One(items ...*c06A) *c06A          { return c06Q(c06C(items...)) }
 
 // skeleton tokens (QueryLangGen.tla) -> tree; leaves are filled by fill
 func c06FromSkeleton(toks []string, fill func(kind string) *c06A) (*c06A, error) {
@@ -659,15 +659,27 @@ func (sp *c06Spell) assemble0(toks []c06Tok) (string, []int) {
 // ---------------------------------------------------------------- events
 
 type c06Vals struct {
-	idx  map[string]int
-	list []verifkit.M
+	idx   map[string]int
+	list  []verifkit.M
+	flags syntax.Flags
+}
+
+// c06Flags: the document sends the reader to regexp/syntax, whose default (as in regexp.Compile)
+// is syntax.Perl: ^ and $ match at the ends of the text.  When the document says that multi-line
+// mode is always on (VERIF_C06_MULTILINE=1, set by checks/c06.py from the text of the document)
+// they are line anchors.
+func c06Flags() syntax.Flags {
+	if verifkit.EnvInt("VERIF_C06_MULTILINE", 0) == 1 {
+		return syntax.Perl &^ syntax.OneLine
+	}
+	return syntax.Perl
 }
 
 func (v *c06Vals) add(value string) int {
 	if i, ok := v.idx[value]; ok {
 		return i
 	}
-	re, err := syntax.Parse(value, syntax.Perl) // "parsed as Go regular expressions"
+	re, err := syntax.Parse(value, v.flags) // "parsed as Go regular expressions"
 	if err != nil {
 		re = &syntax.Regexp{Op: syntax.OpEmptyMatch} // plain texts (branch, lang) need no AST
 	}
@@ -748,7 +760,7 @@ func (r *c06Run) emit(fam string, a *c06A, spells []c06Spell) {
 		r.t.Fatalf("c06: %v", err)
 	}
 	r.id++
-	vals := &c06Vals{idx: map[string]int{}, list: []verifkit.M{}}
+	vals := &c06Vals{idx: map[string]int{}, list: []verifkit.M{}, flags: c06Flags()}
 	vars := []verifkit.M{}
 	parsed := []verifkit.M{}
 	pidx := map[string]int{}
@@ -936,7 +948,7 @@ func TestVerif_C06_QueryLang(t *testing.T) {
 	}
 
 	// (3) seeded random deeper derivations
-	nrand := verifkit.EnvInt("VERIF_RANDOM", verifkit.Pick(40, 1500))
+	nrand := verifkit.EnvInt("VERIF_RANDOM", verifkit.Pick(40, 600))
 	fr := &c06Filler{rng: verifkit.Rng(6003)}
 	for k := 0; k < nrand; k++ {
 		budget := 4 + fr.rng.Intn(8)
